@@ -108,19 +108,20 @@ from .parameters import Boolean, Event
 from ._utils import _to_async_gen, iscoroutinefunction, full_groupby
 
 
-def _no_change(events):
+def _watch_internally(owner, fn, names, precedence):
     """
-    The internal watchers of expressions hear of every assignment, since
-    values that compare equal (1, True, 1.0) are still different results:
-    True if all these events re-assign a value equal to and of the type of
-    the previous one, which changes nothing (no cache is dropped, no
-    callback is called again).
+    Internal watchers of expressions: fn hears of what every watcher hears
+    of - values that changed and param.trigger - and, in addition, of an
+    assignment whose value compares equal to the previous one but is of
+    another type (1, True and 1.0 are different results).
     """
-    return all(
-        event.type != 'triggered' and type(event.old) is type(event.new)
-        and Comparator.is_equal(event.old, event.new)
-        for event in events
-    )
+    owner.param._watch(fn, names, precedence=precedence)
+    def retyped(*events):
+        hidden = [event for event in events
+                  if type(event.old) is not type(event.new) and Comparator.is_equal(event.old, event.new)]
+        if hidden:
+            fn(*hidden)
+    owner.param._watch(retyped, names, onlychanged=False, precedence=precedence)
 
 
 class Wrapper(Parameterized):
@@ -949,16 +950,14 @@ class reactive_ops:
                 return True
 
         # The relays are internal watchers of the branch references that are
-        # not dependencies of the condition anyway. They hear of every
-        # assignment (a value comparing equal to the previous one may be of
-        # another type) and work in two steps: the consumers of the
+        # not dependencies of the condition anyway. They work in two steps: the consumers of the
         # expression are marked out of date once every expression has been
         # invalidated (precedence -1) and before any callback of a user runs,
         # so that a callback that raises cannot leave them stale; they are
         # notified among the other callbacks, in registration order.
         def relays(branch):
             def invalidate(*events):
-                if _no_change(events) or not selects(branch):
+                if not selects(branch):
                     return
                 event = _ParamEvent(what='value', name='value', obj=trigger, cls=type(trigger),
                                     old=False, new=True, type='triggered')
@@ -967,7 +966,7 @@ class reactive_ops:
                     if watcher.precedence < 0:
                         watcher.fn(event)
             def notify(*events):
-                if _no_change(events) or not selects(branch):
+                if not selects(branch):
                     return
                 trigger.param.trigger('value')
             return invalidate, notify
@@ -976,8 +975,8 @@ class reactive_ops:
             refs = [r for r in refs if not any(r is p for p in params)]
             for _, ps in full_groupby(refs, lambda r: id(r.owner)):
                 names = [r.name for r in ps]
-                ps[0].owner.param._watch(invalidate, names, onlychanged=False, precedence=-0.5)
-                ps[0].owner.param._watch(notify, names, onlychanged=False, precedence=0)
+                _watch_internally(ps[0].owner, invalidate, names, -0.5)
+                _watch_internally(ps[0].owner, notify, names, 0)
         def ternary(condition, _):
             return resolve_value(x) if condition else resolve_value(y)
         return bind(ternary, self._reactive, trigger.param.value)
@@ -1147,15 +1146,8 @@ class reactive_ops:
         self._watch(fn, onlychanged=onlychanged, queued=queued, precedence=precedence)
 
     def _watch(self, fn=None, onlychanged=True, queued=False, precedence=0):
-        last = []
         def cb(value):
             from .parameterized import async_executor
-            if onlychanged:
-                # One change of the expression may reach the callback by
-                # several routes (an input and a where() relay in one batch)
-                if last and type(last[0]) is type(value) and Comparator.is_equal(last[0], value):
-                    return
-                last[:] = [value]
             if iscoroutinefunction(fn):
                 async_executor(partial(fn, value))
             elif fn is not None:
@@ -1664,21 +1656,17 @@ class rx:
             for _, params in full_groupby(self._fn_params, lambda x: id(x.owner)):
                 fps = [p.name for p in params if p in self._root._fn_params]
                 if fps:
-                    params[0].owner.param._watch(self._invalidate_obj, fps, onlychanged=False, precedence=-1)
-        # Every assignment invalidates, also of a value that compares equal
-        # to the previous one (1, True and 1.0 are different results)
+                    _watch_internally(params[0].owner, self._invalidate_obj, fps, -1)
         for _, params in full_groupby(self._internal_params, lambda x: id(x.owner)):
-            params[0].owner.param._watch(self._invalidate_current, [p.name for p in params], onlychanged=False, precedence=-1)
+            _watch_internally(params[0].owner, self._invalidate_current, [p.name for p in params], -1)
 
     def _invalidate_current(self, *events):
-        if all(event.obj is self._trigger for event in events) or _no_change(events):
+        if all(event.obj is self._trigger for event in events):
             return
         self._dirty = True
         self._error_state = None
 
     def _invalidate_obj(self, *events):
-        if _no_change(events):
-            return
         self._root._dirty_obj = True
         self._error_state = None
 
